@@ -28,7 +28,7 @@ CLAIMS = {
             'Trusted: Lean kernel; native_decide on templateOk/scanOk/sweepOk/formatPosOk; hand model of default.rs/placement.rs/datamasking.rs tied by correspondence; Spec.Regions as my reading of ISO 6.3 / Annex E.',
             'Lean 4 proof (tier N closed checkers with kernel-checked lifts + symbolic invariance through placement, format writer and masks) + differential correspondence'),
     "C04": ('proof',
-            'Lean 4: all 32 format words = BCH(15,5)(level bits, mask) xor 0x5412, all 34 version words = BCH(18,6), side = 17+4v, format words distinct (decide +kernel on regenerated tables); C04_format_in_symbol — in EVERY symbol the model builder returns each position of Figure 25 (both copies) holds the corresponding bit of the BCH word of the REPORTED (level, mask) and masks never touch it; C04_version_in_symbol — in every built symbol of version 7..40 each position of Figure 26 (both copies) holds the corresponding bit of the BCH(18,6) word of the REPORTED version, whatever payload, level and mask (C04_version_cells + 'nothing outside encoding region and format cells ever changes'); that the physically encoded level/mask/version are the reported ones is also read back by the reference decoder in C01_roundtrip; reported fields = forced options, default Q, classifier mode (C04_fields). Spec verdict on real symbols, exhaustive 4x8x40.',
+            'Lean 4: all 32 format words = BCH(15,5)(level bits, mask) xor 0x5412, all 34 version words = BCH(18,6), side = 17+4v, format words distinct (decide +kernel on regenerated tables); C04_format_in_symbol — in EVERY symbol the model builder returns each position of Figure 25 (both copies) holds the corresponding bit of the BCH word of the REPORTED (level, mask) and masks never touch it; C04_version_in_symbol — in every built symbol of version 7..40 each position of Figure 26 (both copies) holds the corresponding bit of the BCH(18,6) word of the REPORTED version, whatever payload, level and mask (C04_version_cells + nothing outside encoding region and format cells ever changes); that the physically encoded level/mask/version are the reported ones is also read back by the reference decoder in C01_roundtrip; reported fields = forced options, default Q, classifier mode (C04_fields). Spec verdict on real symbols, exhaustive 4x8x40.',
             'Trusted: Lean kernel; native_decide on formatPosOk/versionCellsOk/templateOk/sweepOk/scanOk; translator; ISO figure coordinates as transcribed.',
             'Lean 4 decide +kernel on regenerated tables + symbolic placement theorem + exhaustive differential check'),
     "C06": ('proof',
